@@ -87,7 +87,17 @@ LOOKALIKE = [
     (['union', 'str', 'int'], ['int', 7], [['str', '7']]),
     (['union', 'str', 'int'], ['str', '7'], [['int', 7]]),
     (['union', 'str', 'float'], ['str', '.inf'], [['float', 'inf']]),
+    # enums: Lv is class Lv(str, Enum) whose values are other members' names
+    (['ref', 'Lv'], ['enum', 'Lv', 'low'], [['enum', 'Lv', 'high'], ['enum', 'Lv', 'mid']]),
+    (['ref', 'Lv'], ['enum', 'Lv', 'mid'], [['enum', 'Lv', 'low'], ['enum', 'Lv', 'high']]),
+    (['ref', 'Pe'], ['enum', 'Pe', 'low'], [['enum', 'Pe', 'high']]),
+    (['union', ['ref', 'Lv'], 'int'], ['int', 1], [['enum', 'Lv', 'low']]),
+    (['opt', ['ref', 'Lv']], ['none'], [['enum', 'Lv', 'low']]),
+    (['ref', 'Us'], ['strlike', 'Us', 'x'], [['strlike', 'Us', 'X'], ['strlike', 'Us', '']]),
 ]
+LOOK_CLASSES = [{'name': 'Lv', 'kind': 'enum', 'members': ['low', 'high', 'mid'], 'str_mixin': True},
+                {'name': 'Pe', 'kind': 'enum', 'members': ['low', 'high']},
+                {'name': 'Us', 'kind': 'userstring'}]
 
 
 @st.composite
@@ -102,7 +112,7 @@ def lookalike_cases(draw):
         kw.append(['p%d' % i, draw(st.sampled_from(vals + vals + [d]))])
     cls = {'name': 'D', 'kind': 'obj', 'bases': [], 'params': params,
            'sweeten': [['remove_defaults']]}
-    classes = [cls]
+    classes = [dict(c) for c in LOOK_CLASSES] + [cls]
     doc = ['ref', 'D']
     v = ['obj', 'D', kw, None]
     if draw(st.booleans()):
